@@ -1351,6 +1351,17 @@ class KernelAnalysis:
                 and isinstance(value.slice, ast.Constant):
             self._decl(name, 'out')
             return
+        if isinstance(value, ast.Subscript) and self._arr_name(value.value) in self.gvars:
+            # a view that keeps the whole coefficient axis (`R2_data = R_data[:, :, :, M:]`): same grading, same role
+            sl0 = value.slice.elts[0] if isinstance(value.slice, ast.Tuple) and value.slice.elts else value.slice
+            if isinstance(sl0, ast.Slice) and sl0.lower is None and sl0.upper is None and sl0.step is None:
+                src = self._arr_name(value.value)
+                g = self.gvars[src]
+                self.gvars[name] = GVar(name, g.off, g.length, g.role, g.scaled, False)
+                self.alias_of = getattr(self, 'alias_of', {})
+                self.alias_of[name] = src
+                self.partial_views = getattr(self, 'partial_views', set()) | {name}
+                return
         if isinstance(value, (ast.Name, ast.Attribute)) and self._arr_name(value) in self.gvars:
             src = self._arr_name(value)
             g = self.gvars[src]
